@@ -269,6 +269,217 @@ def job_objective(name, reps):
                 sample=dict(case=f"objective {name}", reps=reps, accesses=eng.n_access), **common)
 
 
+# ------------------------------------------------------------------ decoders
+REPLAY_DECODER = '''
+import numpy as np
+from moptipyapps.binpacking2d.instance import Instance
+from moptipyapps.binpacking2d.packing import Packing
+if W["enc"] == 1:
+    from moptipyapps.binpacking2d.encodings.ibl_encoding_1 import ImprovedBottomLeftEncoding1 as E
+else:
+    from moptipyapps.binpacking2d.encodings.ibl_encoding_2 import ImprovedBottomLeftEncoding2 as E
+inst = Instance("i", W["W"], W["H"], W["items"])
+e = E(inst)
+y = Packing(inst)
+y.fill(min(77, int(np.iinfo(y.dtype).max)))
+try:
+    e.decode(np.array(W["x"], dtype=np.int64), y)
+    print("VALUE", int(y.n_bins))
+except IndexError as ex:
+    print("INDEXERROR", ex)
+'''
+
+
+def job_decoder(enc, reps):
+    """index obligations of a whole decoder run (public API, garbage destination) for every signed permutation"""
+    from . import c01, pack_common as P
+    from symx.core import Engine
+    E = c01.encoders()
+    n = sum(reps)
+    tot = dict(paths=0, sat=0, unsat=0, unknown=0, solver=0.0)
+    acc0 = core.ACCESSES
+    xs = list(P.signed_perms(reps))
+    for x in xs:
+        def h(eng):
+            inst = P.make_instance(eng, reps)
+            c01.run_decode(eng, enc, E, inst, x)
+            pend = [(l, c) for l, c in eng.pending if l.startswith("index in range")]
+            eng.pending = []
+            for l, c in pend:
+                eng.oblige(c, l, now=True)
+            return "decoded"
+        eng = Engine(timeout_ms=60000)
+        eng.prefer = P.small_witness_prefs(len(reps))
+        ok = eng.explore(h)
+        for k, v in (("paths", eng.paths), ("sat", eng.n_sat), ("unsat", eng.n_unsat), ("unknown", eng.unknown), ("solver", eng.t_solver)):
+            tot[k] += v
+        common = dict(paths=tot["paths"], queries=dict(sat=tot["sat"], unsat=tot["unsat"], unknown=tot["unknown"]), solver_s=round(tot["solver"], 2),
+                      vacuity=dict(accesses=core.ACCESSES - acc0))
+        if eng.violations:
+            v = eng.violations[0]
+            md = {d.name(): v.model[d].as_long() for d in v.model.decls() if z3.is_int_value(v.model[d])}
+            Wv, Hv, items = P.model_instance(md, reps)
+            w = dict(enc=enc, W=Wv, H=Hv, items=[list(i) for i in items], x=list(x), label=v.label, case=f"decoder {enc}", replay_code=REPLAY_DECODER)
+            rc, out, err = boundscheck_replay(REPLAY_DECODER, w)
+            w["observed"] = (out + err)[-500:]
+            if "INDEXERROR" in out:
+                return violated("index_in_range", f"binpacking2d/encodings/ibl_encoding_{enc}.py", f"decoder {enc}: out-of-bounds access under NUMBA_BOUNDSCHECK=1: bin {Wv}x{Hv} items {items} x={list(x)}",
+                                w, validated=1, **common)
+            return inconclusive(f"decoder {enc}: '{v.label}' fails symbolically but does not replay as IndexError (rc={rc}): {w['observed'][-200:]}", **common)
+        if not ok or not eng.outcomes.get("decoded"):
+            return inconclusive(f"decoder {enc}: exploration not conclusive {eng.stats()}", **common)
+    return held(summary=f"decoder {enc} reps={reps}: {len(xs)} signed permutations, {tot['paths']} paths, {core.ACCESSES - acc0} array accesses in range",
+                sample=dict(case=f"decoder {enc}", reps=reps, accesses=core.ACCESSES - acc0), **common)
+
+
+# ------------------------------------------------------------------ TSP / QAP / order1d kernels
+REPLAY_TOUR = '''
+import numpy as np
+from moptipyapps.tsp.instance import Instance
+from moptipyapps.tsp.tour_length import TourLength
+inst = Instance("t", 0, np.array(W["D"], dtype=np.int64))
+try:
+    print("VALUE", TourLength(inst).evaluate(np.array(W["x"], dtype=np.int64)))
+except IndexError as ex:
+    print("INDEXERROR", ex)
+'''
+
+REPLAY_QAP = '''
+import numpy as np
+from moptipyapps.qap.instance import Instance
+from moptipyapps.qap.objective import QAPObjective
+n = W["n"]
+D = np.array([[abs(i - j) for j in range(n)] for i in range(n)], dtype=np.uint64)
+F = np.array([[(i + 2 * j) % 5 for j in range(n)] for i in range(n)], dtype=np.uint64)
+try:
+    print("VALUE", QAPObjective(Instance(D, F)).evaluate(np.array(W["x"], dtype=np.int64)))
+except IndexError as ex:
+    print("INDEXERROR", ex)
+'''
+
+REPLAY_SWAP = '''
+import numpy as np
+from moptipyapps.order1d.distances import swap_distance
+try:
+    print("VALUE", swap_distance(np.array(W["p1"], dtype=np.int64), np.array(W["p2"], dtype=np.int64)))
+except IndexError as ex:
+    print("INDEXERROR", ex)
+'''
+
+
+def _perm(eng, name, n):
+    from symx.core import INT64
+    p = fresh_array(name, (n,), dtype=INT64)
+    eng.assume(z3.And(z3.Distinct(*[lift(p[k]) for k in range(n)]), *[z3.And(lift(p[k]) >= 0, lift(p[k]) < n) for k in range(n)]))
+    return p
+
+
+def _explore_index(fn, case, site, wit, code, timeout_ms=60000):
+    from symx.core import Engine
+    acc0 = core.ACCESSES
+
+    def h(eng):
+        fn(eng)
+        pend = [(l, c) for l, c in eng.pending if l.startswith("index in range")]
+        eng.pending = []
+        for l, c in pend:
+            eng.oblige(c, l, now=True)
+        return "ran"
+    eng = Engine(timeout_ms=timeout_ms)
+    ok = eng.explore(h)
+    common = dict(paths=eng.paths, queries=dict(sat=eng.n_sat, unsat=eng.n_unsat, unknown=eng.unknown), solver_s=round(eng.t_solver, 2),
+                  vacuity=dict(accesses=core.ACCESSES - acc0))
+    if eng.violations:
+        v = eng.violations[0]
+        md = {d.name(): v.model[d].as_long() for d in v.model.decls() if z3.is_int_value(v.model[d])}
+        w = wit(md)
+        w.update(case=case, label=v.label, replay_code=code)
+        rc, out, err = boundscheck_replay(code, w)
+        w["observed"] = (out + err)[-500:]
+        if "INDEXERROR" in out:
+            return violated("index_in_range", site, f"{case}: out-of-bounds access under NUMBA_BOUNDSCHECK=1: { {k: v2 for k, v2 in w.items() if k not in ('replay_code', 'observed')} }", w, validated=1, **common)
+        return inconclusive(f"{case}: '{v.label}' fails symbolically but does not replay as IndexError: {w['observed'][-200:]}", **common)
+    if not ok or not eng.outcomes.get("ran") or core.ACCESSES == acc0:
+        return inconclusive(f"{case}: exploration not conclusive {eng.stats()}", **common)
+    return held(summary=f"{case}: {eng.paths} paths, {core.ACCESSES - acc0} array accesses in range", sample=dict(case=case, accesses=core.ACCESSES - acc0), **common)
+
+
+def job_tour_length(n):
+    import moptipyapps.tsp.tour_length as tl
+    from symx.core import INT64
+    f = xform.transform(tl.tour_length)
+
+    def run(eng):
+        D = fresh_array("d", (n, n), dtype=INT64)
+        x = _perm(eng, "x", n)
+        f(D, x)
+    return _explore_index(run, f"tour_length n={n}", "tsp/tour_length.py:tour_length",
+                          lambda md: dict(D=[[0 if i == j else 1 + i + j for j in range(n)] for i in range(n)], x=[md.get(f"x_{k}", k) for k in range(n)]), REPLAY_TOUR)
+
+
+def job_qap_eval(n):
+    import moptipyapps.qap.objective as qo
+    from symx.core import INT64
+    f = xform.transform(qo._evaluate)
+
+    def run(eng):
+        D = fresh_array("D", (n, n), dtype=INT64)
+        F = fresh_array("F", (n, n), dtype=INT64)
+        x = _perm(eng, "x", n)
+        f(x, D, F)
+    return _explore_index(run, f"qap _evaluate n={n}", "qap/objective.py:_evaluate", lambda md: dict(n=n, x=[md.get(f"x_{k}", k) for k in range(n)]), REPLAY_QAP)
+
+
+def job_swap_distance(n):
+    import moptipyapps.order1d.distances as od
+    f = xform.transform(od.swap_distance)
+
+    def run(eng):
+        p1, p2 = _perm(eng, "p1", n), _perm(eng, "p2", n)
+        f(p1, p2)
+    return _explore_index(run, f"swap_distance n={n}", "order1d/distances.py:swap_distance",
+                          lambda md: dict(p1=[md.get(f"p1_{k}", k) for k in range(n)], p2=[md.get(f"p2_{k}", k) for k in range(n)]), REPLAY_SWAP)
+
+
+def job_move_kernels(algo, n):
+    """index obligations of the reversal kernels inside the real solve loop (C06 harness, index clauses only)"""
+    from . import c06
+    r = c06.job_loop(algo, n, 1)
+    if r["status"] == "violated":
+        r["clause"] = "index_in_range"
+    r["summary"] = f"move kernel of {algo} n={n} (via the C06 loop harness, all obligations incl. index ranges): " + str(r.get("summary"))
+    return r
+
+
+def job_controllers():
+    """controllers / systems / j_from_ode: literal indices vs declared dimensions (C16 / C10 harness runs record every access)"""
+    from . import c16, c10
+    acc0 = core.ACCESSES
+    res = []
+    for kind in ("linear", "quadratic", "cubic"):
+        for sd in (2, 3):
+            res.append(c16.job_polynomial(kind, sd))
+    for sd in (2, 3):
+        for idx in range(3):
+            res.append(c16.job_partially_linear(sd, idx))
+        res.append(c16.job_peaks(sd))
+    res.append(c16.job_ann(c16.ann_archs("quick", 0, 16)))
+    for name, sd in (("stuart_landau", 2), ("lorenz", 3), ("three_coupled_oscillators", 6)):
+        res.append(c16.job_system(name, sd))
+    for R, sd, cd, use in ((3, 2, 1, -1), (3, 2, 2, 1), (4, 3, 1, 2)):
+        res.append(c10.job_j(R, sd, cd, use))
+    bad = [r for r in res if r["status"] != "held"]
+    common = dict(paths=sum(int(r.get("paths") or 0) for r in res), queries=dict(sat=0, unsat=sum(int((r.get("queries") or {}).get("unsat", 0)) for r in res), unknown=0),
+                  vacuity=dict(accesses=core.ACCESSES - acc0))
+    if bad:
+        b = bad[0]
+        if b["status"] == "violated" and "range" in str(b.get("what", "")):
+            return violated("index_in_range", b.get("site"), str(b.get("what")), b.get("witness"), validated=1, **common)
+        return inconclusive(f"controller/system harness reports: {b.get('what') or b.get('why')}", **common)
+    return held(summary=f"controllers, systems, j_from_ode: {len(res)} kernels run with arrays of exactly the declared dimensions, {core.ACCESSES - acc0} accesses in range",
+                sample=dict(case="controllers/systems/j_from_ode", kernels=len(res)), **common)
+
+
 def jobs(tier):
     js = []
     shipped = sorted({s for _, s in T.shipped_settings(4).values()})
@@ -283,6 +494,17 @@ def jobs(tier):
         js.append(Job(f"game_plan_length/n{n}/r{r}", job_plan_length, dict(n=n, rounds=r), "index_in_range", 900))
     for n, r in [(2, 2), (3, 1), (3, 2), (4, 1), (4, 2), (5, 2), (6, 2), (8, 2)] + ([(7, 3), (10, 2), (12, 3)] if tier == "thorough" else []):
         js.append(Job(f"map_games/n{n}/r{r}", job_map_games, dict(n=n, rounds=r), "index_in_range", 600))
+    for enc in (1, 2):
+        for reps in ([1], [2], [1, 1]) + (([1, 2], [1, 1, 1], [3]) if tier == "thorough" else ()):
+            js.append(Job(f"decoder/enc{enc}/reps{'-'.join(map(str, reps))}", job_decoder, dict(enc=enc, reps=list(reps)), "index_in_range", 1800))
+    for n in (2, 3, 4) + ((5, 6) if tier == "thorough" else ()):
+        js.append(Job(f"tour_length/n{n}", job_tour_length, dict(n=n), "index_in_range", 600))
+        js.append(Job(f"qap_evaluate/n{n}", job_qap_eval, dict(n=n), "index_in_range", 600))
+        js.append(Job(f"swap_distance/n{n}", job_swap_distance, dict(n=n), "index_in_range", 900))
+    for algo in ("ea", "fea"):
+        for n in (4, 5) + ((6,) if tier == "thorough" else ()):
+            js.append(Job(f"move_kernel/{algo}/n{n}", job_move_kernels, dict(algo=algo, n=n), "index_in_range", 1200))
+    js.append(Job("controllers-systems-j", job_controllers, {}, "index_in_range", 1200))
     from . import c02
     for name in c02.OBJECTIVES:
         for reps in ([1], [1, 1], [2], [1, 1, 1]) + (([2, 1], [3], [1, 1, 1, 1]) if tier == "thorough" else ()):
@@ -294,11 +516,14 @@ def jobs(tier):
 
 def meta(tier):
     return dict(
-        bounds=dict(objectives="the seven bin-packing objectives on every feasible packing of <= 3 rows (skyline: 2; thorough 4/3), sizes symbolic up to 10^12, "
+        bounds=dict(decoders="both decoders through the public API, <= 2 items (thorough 3), every signed permutation, sizes symbolic to 10^12, garbage destination",
+                    tsp_qap_order1d="tour_length, qap _evaluate, swap_distance on symbolic permutations n <= 4 (thorough 6); reversal kernels inside the real EA/FEA loop n <= 5 (thorough 6)",
+                    control="controllers (incl. generated ANNs), systems and the figure-of-merit kernel run with arrays of exactly the declared dimensions",
+                    objectives="the seven bin-packing objectives on every feasible packing of <= 3 rows (skyline: 2; thorough 4/3), sizes symbolic up to 10^12, "
                                "every item in its own bin included",
                     ttp="count_errors n in {2,4} (thorough 6), rounds 1..2, all plans -n..n incl. self-play, shipped + symbolic settings; "
                         "game_plan_length same plan domain; map_games: one game from an arbitrary plan, every code of the blueprint range, n<=8 (thorough 12)"),
-        outside=["kernels not listed in this run's jobs", "kernels reached only through scipy/numpy internals"],
+        outside=["min_ann and predefined controllers", "kernels reached only through scipy/numpy internals", "sizes beyond the stated bounds"],
         assumptions=["inputs are those the public spaces accept (plan entries -n..n; game codes of the blueprint range)",
                      "numba negative-index wrap: index in [-len, len) is in range"],
         stubs=["np.ndarray -> SymArray with per-access range obligations"])
